@@ -398,6 +398,15 @@ def main(argv):
         ctx.count("composed-hash-model-calls", ncalls)
         for b in bad[:5]:
             ctx.disagreement("composed Lean model HashClient∘Client differs from the real HashClient", b, theorem="C13_hash_projection")
+    # composed model HashClient ∘ PooledClient ∘ Client (Pymc/Model/HashPooledCall.lean): the same on the real HashClient(use_pooling=True)
+    # (result, server, PooledClient invoked, inner client, socket used, bookkeeping state, every registered pool)
+    if ctx.lean.build_ok:
+        import hashpooledcall_diff
+        ncalls, bad = hashpooledcall_diff.differential(3000 if ctx.thorough else 400, rng, ctx.driver.batch)
+        ctx.count("composed-hashpooled-model-calls", ncalls)
+        for b in bad[:5]:
+            ctx.disagreement("composed Lean model HashClient∘PooledClient∘Client differs from the real HashClient(use_pooling=True)", b,
+                             theorem="C13_hashpooled_projection")
     ctx.extra["explored_op_steps"] = total_states
     ctx.assumptions = ["time is an integer number of ticks, constant during one public call", "'failing' = raising OSError (other errors do not mark a server)",
                        "routing is abstracted to a preference order (the rendezvous choice over the remaining set is C11/C12)"]
